@@ -31,7 +31,7 @@ PROPS = {
     "C06": ["C06_syntax.v", "C06_evaluates_identically.v"],
     "C07": ["C07_control.v", "C10_objects_sorted.v"],
     "C08": ["C08_frames.v"],
-    "C09": ["C09_reads.v", "C09_stores.v", "C09_creates.v"],
+    "C09": ["C09_reads.v", "C09_stores.v", "C09_creates.v", "C09_incdec.v"],
     "C10": ["C10_determinism.v", "C10_objects_sorted.v"],
     "C11": ["C11_faults.v"],
     "C12": ["C12_positions.v"],
@@ -164,8 +164,13 @@ def run_check(chk, tier, replay=None):
                                "of the pinned tree was used, so this property is no longer tied to the source through it)" % (t, m.get("reason")),
                                "assumptions": "", "ok": False})
     if not binfo["coq_ok"]:
+        # a file that no longer compiles breaks the obligations of the properties whose theorem files
+        # depend on it (everything, for a file of the model itself); the model binary is then stale,
+        # which the correspondence runs below would show as disagreements if it mattered
+        closure = B.dep_closure(chk.props) if chk.props else None
         for f in binfo["broken_files"]:
-            broken.append({"file": f, "theorem": "(does not compile)", "assumptions": "", "ok": False})
+            if closure is None or f in closure or not f.endswith(".v") or f.startswith(("Extract/", "Gen/")):
+                broken.append({"file": f, "theorem": "(does not compile)", "assumptions": "", "ok": False})
 
     # ---- cases
     cases = load_corpus(chk.pid) + chk.generate(rng, tier)
